@@ -10,15 +10,17 @@ Local Open Scope R_scope.
 (** For every inner-product space, every world (a real oracle for each leaf function whose outputs
     are genuine samples of that function), every well-formed program of any length and every initial
     valuation of the leaves: after the real run, EVERY recorded triple is a genuine sample of its
-    function at the values the run gave to the leaves. *)
+    function at the values the run gave to the leaves.  Programs may contain proximal steps ([MProx], the
+    model of PEPit.primitive_steps.proximal_step) on the functions of the world that have a proximal
+    operator ([prox_ok]; [mwf] asks for a positive step size). *)
 Theorem C09_recorded_samples_are_genuine :
   forall (E : ips) (W : @world E) (ops : list mop) (vs : (nat -> E) * (nat -> R)),
-    mwf ops minit = true ->
+    mwf ops minit = true -> prox_ok W ops = true ->
     forall f t, In (f, t) (m_samples (mrun ops minit)) ->
       Gen W f (sample_at (E := E) (fst (wrun W ops minit vs)) (snd (wrun W ops minit vs)) t).
 Proof.
-  intros E W ops vs Hwf f t Hin.
-  exact (proj2 (world_samples_genuine_init W ops vs Hwf f t Hin)).
+  intros E W ops vs Hwf Hpx f t Hin.
+  exact (proj2 (world_samples_genuine_init W ops vs Hwf Hpx f t Hin)).
 Qed.
 
 (** The run never changes the value of a leaf that existed before it, nor of a free leaf created
@@ -79,11 +81,12 @@ Proof. exact (@performance_bounded). Qed.
     (the other classes compose in the same way through their C03 theorem). *)
 Theorem C09_run_satisfies_class_constraints_smooth_strongly_convex :
   forall (E : ips) (mu L : R) (qmu qL : Q) (F : @dfn E) (xs : E)
-         (Hxs : veq (dgrad F xs) vzero) (Hext : respects_veq F) (ops : list mop) (vs : (nat -> E) * (nat -> R)),
+         (Hxs : veq (dgrad F xs) vzero) (Hext : respects_veq F) (hp : bool) (res : R -> E -> E) (Hres : prox_spec (genuine_grad F) (dval F) hp res)
+         (ops : list mop) (vs : (nat -> E) * (nat -> R)),
     0 <= mu < L -> smooth_strongly_convex_member mu L F ->
     Q2R qL = L -> Q2R qmu = mu ->
     mwf ops minit = true -> Forall op_nodup ops ->
-    let W := dfn_world F xs Hxs Hext in
+    let W := dfn_world F xs Hxs Hext hp res Hres in prox_ok W ops = true ->
     let par := fun p => match p with 0%nat => qL | 1%nat => qmu | _ => 0%Q end in
     all_satisfied (fst (wrun W ops minit vs)) (snd (wrun W ops minit vs))
       (run_plan plan_SmoothStronglyConvexFunction (fstate_of par (mrun ops minit) 0)).
@@ -91,9 +94,10 @@ Proof. exact (@run_satisfies_smooth_strongly_convex). Qed.
 
 Theorem C09_run_satisfies_class_constraints_convex :
   forall (E : ips) (F : @fn E) (sel : E -> E) (Hsel : forall x, subgrad F x (sel x))
-         (xs : E) (Hxs : subgrad F xs vzero) (Hext : fn_respects_veq F) (ops : list mop) (vs : (nat -> E) * (nat -> R)),
+         (xs : E) (Hxs : subgrad F xs vzero) (Hext : fn_respects_veq F) (hp : bool) (res : R -> E -> E) (Hres : prox_spec (genuine_sub F) (val F) hp res)
+         (ops : list mop) (vs : (nat -> E) * (nat -> R)),
     mwf ops minit = true -> Forall op_nodup ops ->
-    let W := fn_world F sel Hsel xs Hxs Hext in
+    let W := fn_world F sel Hsel xs Hxs Hext hp res Hres in prox_ok W ops = true ->
     all_satisfied (fst (wrun W ops minit vs)) (snd (wrun W ops minit vs))
       (run_plan plan_ConvexFunction (fstate_of (fun _ => 0%Q) (mrun ops minit) 0)).
 Proof. exact (@run_satisfies_convex). Qed.
@@ -140,34 +144,37 @@ Print Assumptions C09_stationary_samples_at_stationary_point.
 
 Theorem C09_run_satisfies_class_constraints_smooth_convex :
   forall (E : ips) (F : @dfn E) (xs : E) (Hxs : veq (dgrad F xs) vzero) (Hext : respects_veq F)
+         (hp : bool) (res : R -> E -> E) (Hres : prox_spec (genuine_grad F) (dval F) hp res)
          (ops : list mop) (vs : (nat -> E) * (nat -> R)),
     mwf ops minit = true -> Forall op_nodup ops ->
+    let W := dfn_world F xs Hxs Hext hp res Hres in prox_ok W ops = true ->
     forall (L : R) (qL : Q), 0 < L -> smooth_convex_member L F -> Q2R qL = L ->
-    let W := dfn_world F xs Hxs Hext in
-    all_satisfied (fst (wrun W ops minit vs)) (snd (wrun W ops minit vs))
+        all_satisfied (fst (wrun W ops minit vs)) (snd (wrun W ops minit vs))
       (run_plan plan_SmoothConvexFunction (fstate_of (par_at 0 qL) (mrun ops minit) 0)).
 Proof. exact (@run_satisfies_smooth_convex). Qed.
 Print Assumptions C09_run_satisfies_class_constraints_smooth_convex.
 
 Theorem C09_run_satisfies_class_constraints_smooth :
   forall (E : ips) (F : @dfn E) (xs : E) (Hxs : veq (dgrad F xs) vzero) (Hext : respects_veq F)
+         (hp : bool) (res : R -> E -> E) (Hres : prox_spec (genuine_grad F) (dval F) hp res)
          (ops : list mop) (vs : (nat -> E) * (nat -> R)),
     mwf ops minit = true -> Forall op_nodup ops ->
+    let W := dfn_world F xs Hxs Hext hp res Hres in prox_ok W ops = true ->
     forall (L : R) (qL : Q), 0 < L -> smooth_member L F -> Q2R qL = L ->
-    let W := dfn_world F xs Hxs Hext in
-    all_satisfied (fst (wrun W ops minit vs)) (snd (wrun W ops minit vs))
+        all_satisfied (fst (wrun W ops minit vs)) (snd (wrun W ops minit vs))
       (run_plan plan_SmoothFunction (fstate_of (par_at 0 qL) (mrun ops minit) 0)).
 Proof. exact (@run_satisfies_smooth). Qed.
 Print Assumptions C09_run_satisfies_class_constraints_smooth.
 
 Theorem C09_run_satisfies_class_constraints_smooth_convex_lipschitz :
   forall (E : ips) (F : @dfn E) (xs : E) (Hxs : veq (dgrad F xs) vzero) (Hext : respects_veq F)
+         (hp : bool) (res : R -> E -> E) (Hres : prox_spec (genuine_grad F) (dval F) hp res)
          (ops : list mop) (vs : (nat -> E) * (nat -> R)),
     mwf ops minit = true -> Forall op_nodup ops ->
+    let W := dfn_world F xs Hxs Hext hp res Hres in prox_ok W ops = true ->
     forall (L M : R) (qL qM : Q),
     0 < L -> 0 <= M -> smooth_convex_lipschitz_member L M F -> Q2R qL = L -> Q2R qM = M ->
-    let W := dfn_world F xs Hxs Hext in
-    all_satisfied (fst (wrun W ops minit vs)) (snd (wrun W ops minit vs))
+        all_satisfied (fst (wrun W ops minit vs)) (snd (wrun W ops minit vs))
       (run_plan plan_SmoothConvexLipschitzFunction (fstate_of (par_at2 0 qL 2 qM) (mrun ops minit) 0)).
 Proof. exact (@run_satisfies_smooth_convex_lipschitz). Qed.
 Print Assumptions C09_run_satisfies_class_constraints_smooth_convex_lipschitz.
@@ -175,23 +182,25 @@ Print Assumptions C09_run_satisfies_class_constraints_smooth_convex_lipschitz.
 (** the world's stationary point is the xs of [rsi_eb_member] *)
 Theorem C09_run_satisfies_class_constraints_rsi_eb :
   forall (E : ips) (F : @dfn E) (xs : E) (Hxs : veq (dgrad F xs) vzero) (Hext : respects_veq F)
+         (hp : bool) (res : R -> E -> E) (Hres : prox_spec (genuine_grad F) (dval F) hp res)
          (ops : list mop) (vs : (nat -> E) * (nat -> R)),
     mwf ops minit = true -> Forall op_nodup ops ->
+    let W := dfn_world F xs Hxs Hext hp res Hres in prox_ok W ops = true ->
     forall (mu L : R) (qmu qL : Q),
     rsi_eb_member mu L F xs -> Q2R qL = L -> Q2R qmu = mu -> In (MStat 0) ops ->
-    let W := dfn_world F xs Hxs Hext in
-    all_satisfied (fst (wrun W ops minit vs)) (snd (wrun W ops minit vs))
+        all_satisfied (fst (wrun W ops minit vs)) (snd (wrun W ops minit vs))
       (run_plan plan_RsiEbFunction (fstate_of (par_at2 0 qL 1 qmu) (mrun ops minit) 0)).
 Proof. exact (@run_satisfies_rsi_eb). Qed.
 Print Assumptions C09_run_satisfies_class_constraints_rsi_eb.
 
 Theorem C09_run_satisfies_class_constraints_convex_lipschitz :
   forall (E : ips) (F : @fn E) (sel : E -> E) (Hsel : forall x, subgrad F x (sel x))
-         (xs : E) (Hxs : subgrad F xs vzero) (Hext : fn_respects_veq F) (ops : list mop) (vs : (nat -> E) * (nat -> R)),
+         (xs : E) (Hxs : subgrad F xs vzero) (Hext : fn_respects_veq F) (hp : bool) (res : R -> E -> E) (Hres : prox_spec (genuine_sub F) (val F) hp res)
+         (ops : list mop) (vs : (nat -> E) * (nat -> R)),
     mwf ops minit = true -> Forall op_nodup ops ->
+    let W := fn_world F sel Hsel xs Hxs Hext hp res Hres in prox_ok W ops = true ->
     forall (M : R) (qM : Q), 0 <= M -> lipschitz_fn M F -> Q2R qM = M ->
-    let W := fn_world F sel Hsel xs Hxs Hext in
-    all_satisfied (fst (wrun W ops minit vs)) (snd (wrun W ops minit vs))
+        all_satisfied (fst (wrun W ops minit vs)) (snd (wrun W ops minit vs))
       (run_plan plan_ConvexLipschitzFunction (fstate_of (par_at 2 qM) (mrun ops minit) 0)).
 Proof. exact (@run_satisfies_convex_lipschitz). Qed.
 Print Assumptions C09_run_satisfies_class_constraints_convex_lipschitz.
@@ -199,11 +208,12 @@ Print Assumptions C09_run_satisfies_class_constraints_convex_lipschitz.
 (** the world's stationary point is a minimiser *)
 Theorem C09_run_satisfies_class_constraints_convex_qg :
   forall (E : ips) (F : @fn E) (sel : E -> E) (Hsel : forall x, subgrad F x (sel x))
-         (xs : E) (Hxs : subgrad F xs vzero) (Hext : fn_respects_veq F) (ops : list mop) (vs : (nat -> E) * (nat -> R)),
+         (xs : E) (Hxs : subgrad F xs vzero) (Hext : fn_respects_veq F) (hp : bool) (res : R -> E -> E) (Hres : prox_spec (genuine_sub F) (val F) hp res)
+         (ops : list mop) (vs : (nat -> E) * (nat -> R)),
     mwf ops minit = true -> Forall op_nodup ops ->
+    let W := fn_world F sel Hsel xs Hxs Hext hp res Hres in prox_ok W ops = true ->
     forall (L : R) (qL : Q), 0 < L -> qg_member L F -> Q2R qL = L -> In (MStat 0) ops ->
-    let W := fn_world F sel Hsel xs Hxs Hext in
-    all_satisfied (fst (wrun W ops minit vs)) (snd (wrun W ops minit vs))
+        all_satisfied (fst (wrun W ops minit vs)) (snd (wrun W ops minit vs))
       (run_plan plan_ConvexQGFunction (fstate_of (par_at 0 qL) (mrun ops minit) 0)).
 Proof. exact (@run_satisfies_convex_qg). Qed.
 Print Assumptions C09_run_satisfies_class_constraints_convex_qg.
@@ -211,11 +221,12 @@ Print Assumptions C09_run_satisfies_class_constraints_convex_qg.
 (** extended-valued: the subgradient selection lives on the domain; the run only evaluates points of the domain *)
 Theorem C09_run_satisfies_class_constraints_strongly_convex :
   forall (E : ips) (F : @fn E) (sel : E -> E) (Hsel : forall x, dom F x -> subgrad F x (sel x))
-         (xs : E) (Hxs : subgrad F xs vzero) (Hext : fn_respects_veq F) (ops : list mop) (vs : (nat -> E) * (nat -> R)),
+         (xs : E) (Hxs : subgrad F xs vzero) (Hext : fn_respects_veq F) (hp : bool) (res : R -> E -> E) (Hres : prox_spec (genuine_sub F) (val F) hp res)
+         (ops : list mop) (vs : (nat -> E) * (nat -> R)),
     mwf ops minit = true -> Forall op_nodup ops ->
+    let W := pfn_world F sel Hsel xs Hxs Hext hp res Hres in prox_ok W ops = true ->
     forall (mu : R) (qmu : Q), 0 <= mu -> strongly_convex_member mu F -> Q2R qmu = mu ->
-    let W := pfn_world F sel Hsel xs Hxs Hext in
-    (forall sm, In sm (f_points (fstate_of (par_at 1 qmu) (mrun ops minit) 0)) -> dom F (px (fst (wrun W ops minit vs)) sm)) ->
+        (forall sm, In sm (f_points (fstate_of (par_at 1 qmu) (mrun ops minit) 0)) -> dom F (px (fst (wrun W ops minit vs)) sm)) ->
     all_satisfied (fst (wrun W ops minit vs)) (snd (wrun W ops minit vs))
       (run_plan plan_StronglyConvexFunction (fstate_of (par_at 1 qmu) (mrun ops minit) 0)).
 Proof. exact (@run_satisfies_strongly_convex). Qed.
@@ -224,11 +235,12 @@ Print Assumptions C09_run_satisfies_class_constraints_strongly_convex.
 (** F the indicator of its domain, the oracle a selection of the normal cone on the set *)
 Theorem C09_run_satisfies_class_constraints_convex_indicator :
   forall (E : ips) (F : @fn E) (sel : E -> E) (Hsel : forall x, dom F x -> subgrad F x (sel x))
-         (xs : E) (Hxs : subgrad F xs vzero) (Hext : fn_respects_veq F) (ops : list mop) (vs : (nat -> E) * (nat -> R)),
+         (xs : E) (Hxs : subgrad F xs vzero) (Hext : fn_respects_veq F) (hp : bool) (res : R -> E -> E) (Hres : prox_spec (genuine_sub F) (val F) hp res)
+         (ops : list mop) (vs : (nat -> E) * (nat -> R)),
     mwf ops minit = true -> Forall op_nodup ops ->
+    let W := pfn_world F sel Hsel xs Hxs Hext hp res Hres in prox_ok W ops = true ->
     forall (D : option R) (qD : Q), indicator_member D F -> (forall d, D = Some d -> Q2R qD = d) ->
-    let W := pfn_world F sel Hsel xs Hxs Hext in
-    (forall sm, In sm (f_points (fstate_of (par_at 3 qD) (mrun ops minit) 0)) -> dom F (px (fst (wrun W ops minit vs)) sm)) ->
+        (forall sm, In sm (f_points (fstate_of (par_at 3 qD) (mrun ops minit) 0)) -> dom F (px (fst (wrun W ops minit vs)) sm)) ->
     all_satisfied (fst (wrun W ops minit vs)) (snd (wrun W ops minit vs))
       (run_plan plan_ConvexIndicatorFunction (set_inf (inf_flag 3 D) (fstate_of (par_at 3 qD) (mrun ops minit) 0))).
 Proof. exact (@run_satisfies_convex_indicator). Qed.
@@ -240,10 +252,11 @@ Theorem C09_run_satisfies_class_constraints_convex_support :
          (Hsel : forall x, C (sel x) /\ inner (sel x) x = sigma x)
          (xs : E) (Hzero : C vzero) (Hxs : sigma xs = 0)
          (HCext : forall g g' : E, veq g g' -> C g -> C g') (Hsext : forall x x' : E, veq x x' -> sigma x = sigma x')
+         (hp : bool) (res : R -> E -> E) (Hres : prox_spec (genuine_support C sigma) sigma hp res)
          (M : option R) (qM : Q) (ops : list mop) (vs : (nat -> E) * (nat -> R)),
     support_member M C sigma -> (forall m, M = Some m -> Q2R qM = m) ->
     mwf ops minit = true -> Forall op_nodup ops ->
-    let W := support_world C sigma sel Hsel xs Hzero Hxs HCext Hsext in
+    let W := support_world C sigma sel Hsel xs Hzero Hxs HCext Hsext hp res Hres in prox_ok W ops = true ->
     all_satisfied (fst (wrun W ops minit vs)) (snd (wrun W ops minit vs))
       (run_plan plan_ConvexSupportFunction (set_inf (inf_flag 2 M) (fstate_of (par_at 2 qM) (mrun ops minit) 0))).
 Proof. exact (@run_satisfies_convex_support). Qed.
@@ -252,54 +265,59 @@ Print Assumptions C09_run_satisfies_class_constraints_convex_support.
 (** operator classes: T a single-valued selection of the graph A, A xs 0, A respects veq *)
 Theorem C09_run_satisfies_class_constraints_monotone :
   forall (E : ips) (A : @graph E) (T : E -> E) (HT : forall x, A x (T x)) (xs : E) (Hxs : A xs vzero)
-         (Hext : graph_respects_veq A) (ops : list mop) (vs : (nat -> E) * (nat -> R)),
-    mwf ops minit = true -> Forall op_nodup ops -> monotone_op A ->
-    let W := graph_world A T HT xs Hxs Hext in
-    all_satisfied (fst (wrun W ops minit vs)) (snd (wrun W ops minit vs))
+         (Hext : graph_respects_veq A) (hp : bool) (res : R -> E -> E) (Hres : prox_spec (genuine_op A) (fun _ => 0) hp res)
+         (ops : list mop) (vs : (nat -> E) * (nat -> R)),
+    mwf ops minit = true -> Forall op_nodup ops ->
+    let W := graph_world A T HT xs Hxs Hext hp res Hres in prox_ok W ops = true -> monotone_op A ->
+        all_satisfied (fst (wrun W ops minit vs)) (snd (wrun W ops minit vs))
       (run_plan plan_MonotoneOperator (fstate_of (fun _ => 0%Q) (mrun ops minit) 0)).
 Proof. exact (@run_satisfies_monotone). Qed.
 Print Assumptions C09_run_satisfies_class_constraints_monotone.
 
 Theorem C09_run_satisfies_class_constraints_strongly_monotone :
   forall (E : ips) (A : @graph E) (T : E -> E) (HT : forall x, A x (T x)) (xs : E) (Hxs : A xs vzero)
-         (Hext : graph_respects_veq A) (ops : list mop) (vs : (nat -> E) * (nat -> R)),
+         (Hext : graph_respects_veq A) (hp : bool) (res : R -> E -> E) (Hres : prox_spec (genuine_op A) (fun _ => 0) hp res)
+         (ops : list mop) (vs : (nat -> E) * (nat -> R)),
     mwf ops minit = true -> Forall op_nodup ops ->
+    let W := graph_world A T HT xs Hxs Hext hp res Hres in prox_ok W ops = true ->
     forall (mu : R) (qmu : Q), strongly_monotone_op mu A -> Q2R qmu = mu ->
-    let W := graph_world A T HT xs Hxs Hext in
-    all_satisfied (fst (wrun W ops minit vs)) (snd (wrun W ops minit vs))
+        all_satisfied (fst (wrun W ops minit vs)) (snd (wrun W ops minit vs))
       (run_plan plan_StronglyMonotoneOperator (fstate_of (par_at 1 qmu) (mrun ops minit) 0)).
 Proof. exact (@run_satisfies_strongly_monotone). Qed.
 Print Assumptions C09_run_satisfies_class_constraints_strongly_monotone.
 
 Theorem C09_run_satisfies_class_constraints_cocoercive :
   forall (E : ips) (A : @graph E) (T : E -> E) (HT : forall x, A x (T x)) (xs : E) (Hxs : A xs vzero)
-         (Hext : graph_respects_veq A) (ops : list mop) (vs : (nat -> E) * (nat -> R)),
+         (Hext : graph_respects_veq A) (hp : bool) (res : R -> E -> E) (Hres : prox_spec (genuine_op A) (fun _ => 0) hp res)
+         (ops : list mop) (vs : (nat -> E) * (nat -> R)),
     mwf ops minit = true -> Forall op_nodup ops ->
+    let W := graph_world A T HT xs Hxs Hext hp res Hres in prox_ok W ops = true ->
     forall (beta : R) (qbeta : Q), cocoercive_op beta A -> Q2R qbeta = beta ->
-    let W := graph_world A T HT xs Hxs Hext in
-    all_satisfied (fst (wrun W ops minit vs)) (snd (wrun W ops minit vs))
+        all_satisfied (fst (wrun W ops minit vs)) (snd (wrun W ops minit vs))
       (run_plan plan_CocoerciveOperator (fstate_of (par_at 4 qbeta) (mrun ops minit) 0)).
 Proof. exact (@run_satisfies_cocoercive). Qed.
 Print Assumptions C09_run_satisfies_class_constraints_cocoercive.
 
 Theorem C09_run_satisfies_class_constraints_negatively_comonotone :
   forall (E : ips) (A : @graph E) (T : E -> E) (HT : forall x, A x (T x)) (xs : E) (Hxs : A xs vzero)
-         (Hext : graph_respects_veq A) (ops : list mop) (vs : (nat -> E) * (nat -> R)),
+         (Hext : graph_respects_veq A) (hp : bool) (res : R -> E -> E) (Hres : prox_spec (genuine_op A) (fun _ => 0) hp res)
+         (ops : list mop) (vs : (nat -> E) * (nat -> R)),
     mwf ops minit = true -> Forall op_nodup ops ->
+    let W := graph_world A T HT xs Hxs Hext hp res Hres in prox_ok W ops = true ->
     forall (rh : R) (qrho : Q), neg_comonotone_op rh A -> Q2R qrho = rh ->
-    let W := graph_world A T HT xs Hxs Hext in
-    all_satisfied (fst (wrun W ops minit vs)) (snd (wrun W ops minit vs))
+        all_satisfied (fst (wrun W ops minit vs)) (snd (wrun W ops minit vs))
       (run_plan plan_NegativelyComonotoneOperator (fstate_of (par_at 5 qrho) (mrun ops minit) 0)).
 Proof. exact (@run_satisfies_negatively_comonotone). Qed.
 Print Assumptions C09_run_satisfies_class_constraints_negatively_comonotone.
 
 Theorem C09_run_satisfies_class_constraints_lipschitz :
   forall (E : ips) (A : @graph E) (T : E -> E) (HT : forall x, A x (T x)) (xs : E) (Hxs : A xs vzero)
-         (Hext : graph_respects_veq A) (ops : list mop) (vs : (nat -> E) * (nat -> R)),
+         (Hext : graph_respects_veq A) (hp : bool) (res : R -> E -> E) (Hres : prox_spec (genuine_op A) (fun _ => 0) hp res)
+         (ops : list mop) (vs : (nat -> E) * (nat -> R)),
     mwf ops minit = true -> Forall op_nodup ops ->
+    let W := graph_world A T HT xs Hxs Hext hp res Hres in prox_ok W ops = true ->
     forall (L : R) (qL : Q), lipschitz_op L A -> Q2R qL = L ->
-    let W := graph_world A T HT xs Hxs Hext in
-    all_satisfied (fst (wrun W ops minit vs)) (snd (wrun W ops minit vs))
+        all_satisfied (fst (wrun W ops minit vs)) (snd (wrun W ops minit vs))
       (run_plan plan_LipschitzOperator (fstate_of (par_at 0 qL) (mrun ops minit) 0)).
 Proof. exact (@run_satisfies_lipschitz). Qed.
 Print Assumptions C09_run_satisfies_class_constraints_lipschitz.
@@ -307,53 +325,58 @@ Print Assumptions C09_run_satisfies_class_constraints_lipschitz.
 (** no infimal displacement vector declared *)
 Theorem C09_run_satisfies_class_constraints_nonexpansive :
   forall (E : ips) (A : @graph E) (T : E -> E) (HT : forall x, A x (T x)) (xs : E) (Hxs : A xs vzero)
-         (Hext : graph_respects_veq A) (ops : list mop) (vs : (nat -> E) * (nat -> R)),
-    mwf ops minit = true -> Forall op_nodup ops -> nonexpansive_op A ->
-    let W := graph_world A T HT xs Hxs Hext in
-    all_satisfied (fst (wrun W ops minit vs)) (snd (wrun W ops minit vs))
+         (Hext : graph_respects_veq A) (hp : bool) (res : R -> E -> E) (Hres : prox_spec (genuine_op A) (fun _ => 0) hp res)
+         (ops : list mop) (vs : (nat -> E) * (nat -> R)),
+    mwf ops minit = true -> Forall op_nodup ops ->
+    let W := graph_world A T HT xs Hxs Hext hp res Hres in prox_ok W ops = true -> nonexpansive_op A ->
+        all_satisfied (fst (wrun W ops minit vs)) (snd (wrun W ops minit vs))
       (run_plan plan_NonexpansiveOperator (fstate_of (fun _ => 0%Q) (mrun ops minit) 0)).
 Proof. exact (@run_satisfies_nonexpansive). Qed.
 Print Assumptions C09_run_satisfies_class_constraints_nonexpansive.
 
 Theorem C09_run_satisfies_class_constraints_lipschitz_strongly_monotone :
   forall (E : ips) (A : @graph E) (T : E -> E) (HT : forall x, A x (T x)) (xs : E) (Hxs : A xs vzero)
-         (Hext : graph_respects_veq A) (ops : list mop) (vs : (nat -> E) * (nat -> R)),
+         (Hext : graph_respects_veq A) (hp : bool) (res : R -> E -> E) (Hres : prox_spec (genuine_op A) (fun _ => 0) hp res)
+         (ops : list mop) (vs : (nat -> E) * (nat -> R)),
     mwf ops minit = true -> Forall op_nodup ops ->
+    let W := graph_world A T HT xs Hxs Hext hp res Hres in prox_ok W ops = true ->
     forall (mu L : R) (qmu qL : Q), lipschitz_strongly_monotone_op mu L A -> Q2R qL = L -> Q2R qmu = mu ->
-    let W := graph_world A T HT xs Hxs Hext in
-    all_satisfied (fst (wrun W ops minit vs)) (snd (wrun W ops minit vs))
+        all_satisfied (fst (wrun W ops minit vs)) (snd (wrun W ops minit vs))
       (run_plan plan_LipschitzStronglyMonotoneOperator (fstate_of (par_at2 0 qL 1 qmu) (mrun ops minit) 0)).
 Proof. exact (@run_satisfies_lipschitz_strongly_monotone). Qed.
 Print Assumptions C09_run_satisfies_class_constraints_lipschitz_strongly_monotone.
 
 Theorem C09_run_satisfies_class_constraints_cocoercive_strongly_monotone :
   forall (E : ips) (A : @graph E) (T : E -> E) (HT : forall x, A x (T x)) (xs : E) (Hxs : A xs vzero)
-         (Hext : graph_respects_veq A) (ops : list mop) (vs : (nat -> E) * (nat -> R)),
+         (Hext : graph_respects_veq A) (hp : bool) (res : R -> E -> E) (Hres : prox_spec (genuine_op A) (fun _ => 0) hp res)
+         (ops : list mop) (vs : (nat -> E) * (nat -> R)),
     mwf ops minit = true -> Forall op_nodup ops ->
+    let W := graph_world A T HT xs Hxs Hext hp res Hres in prox_ok W ops = true ->
     forall (mu beta : R) (qmu qbeta : Q), cocoercive_strongly_monotone_op mu beta A -> Q2R qmu = mu -> Q2R qbeta = beta ->
-    let W := graph_world A T HT xs Hxs Hext in
-    all_satisfied (fst (wrun W ops minit vs)) (snd (wrun W ops minit vs))
+        all_satisfied (fst (wrun W ops minit vs)) (snd (wrun W ops minit vs))
       (run_plan plan_CocoerciveStronglyMonotoneOperator (fstate_of (par_at2 1 qmu 4 qbeta) (mrun ops minit) 0)).
 Proof. exact (@run_satisfies_cocoercive_strongly_monotone). Qed.
 Print Assumptions C09_run_satisfies_class_constraints_cocoercive_strongly_monotone.
 
 (** linear operators: g = M x, stationary point 0 *)
 Theorem C09_run_satisfies_class_constraints_symmetric_linear :
-  forall (E : ips) (M : E -> E) (HM : linear M) (ops : list mop) (vs : (nat -> E) * (nat -> R)),
+  forall (E : ips) (M : E -> E) (HM : linear M) (hp : bool) (res : R -> E -> E) (Hres : prox_spec (genuine_lin M) (fun _ => 0) hp res)
+         (ops : list mop) (vs : (nat -> E) * (nat -> R)),
     mwf ops minit = true -> Forall op_nodup ops ->
+    let W := lin_world M HM hp res Hres in prox_ok W ops = true ->
     forall (mu L : R) (qmu qL : Q), sa_bounded mu L M -> Q2R qL = L -> Q2R qmu = mu ->
-    let W := lin_world M HM in
-    all_satisfied (fst (wrun W ops minit vs)) (snd (wrun W ops minit vs))
+        all_satisfied (fst (wrun W ops minit vs)) (snd (wrun W ops minit vs))
       (run_plan plan_SymmetricLinearOperator (fstate_of (par_at2 0 qL 1 qmu) (mrun ops minit) 0)).
 Proof. exact (@run_satisfies_symmetric_linear). Qed.
 Print Assumptions C09_run_satisfies_class_constraints_symmetric_linear.
 
 Theorem C09_run_satisfies_class_constraints_skew_symmetric_linear :
-  forall (E : ips) (M : E -> E) (HM : linear M) (ops : list mop) (vs : (nat -> E) * (nat -> R)),
+  forall (E : ips) (M : E -> E) (HM : linear M) (hp : bool) (res : R -> E -> E) (Hres : prox_spec (genuine_lin M) (fun _ => 0) hp res)
+         (ops : list mop) (vs : (nat -> E) * (nat -> R)),
     mwf ops minit = true -> Forall op_nodup ops ->
+    let W := lin_world M HM hp res Hres in prox_ok W ops = true ->
     forall (L : R) (qL : Q), skew_bounded L M -> Q2R qL = L ->
-    let W := lin_world M HM in
-    all_satisfied (fst (wrun W ops minit vs)) (snd (wrun W ops minit vs))
+        all_satisfied (fst (wrun W ops minit vs)) (snd (wrun W ops minit vs))
       (run_plan plan_SkewSymmetricLinearOperator (fstate_of (par_at 0 qL) (mrun ops minit) 0)).
 Proof. exact (@run_satisfies_skew_symmetric_linear). Qed.
 Print Assumptions C09_run_satisfies_class_constraints_skew_symmetric_linear.
@@ -364,7 +387,7 @@ Theorem C09_run_satisfies_class_constraints_linear :
          (ops : list mop) (vs : (nat -> E) * (nat -> R)),
     bounded_pair L M Mt -> Q2R qL = L ->
     mwf ops minit = true -> Forall op_nodup ops ->
-    let W := lin2_world M Mt HM HMt in
+    let W := lin2_world M Mt HM HMt in prox_ok W ops = true ->
     all_satisfied (fst (wrun W ops minit vs)) (snd (wrun W ops minit vs))
       (run_plan plan_LinearOperator (fstate_of2 (par_at 0 qL) (mrun ops minit) 0 1)).
 Proof. exact (@run_satisfies_linear). Qed.
@@ -377,3 +400,38 @@ Example C09_example_linear_program :
   length (g_cons (run_plan plan_LinearOperator (fstate_of2 (par_at 0 1%Q) (mrun ops minit) 0 1))) = 2%nat /\
   length (g_lmis (run_plan plan_LinearOperator (fstate_of2 (par_at 0 1%Q) (mrun ops minit) 0 1))) = 2%nat.
 Proof. cbv zeta. split; [|split]; vm_compute; reflexivity. Qed.
+
+(** * Proximal methods
+
+    [MProx f p gamma] models  x, gx, fx = proximal_step(p, f, gamma)  (one fresh subgradient leaf, one fresh value
+    leaf, the recorded point is the combination p - gamma * gx).  In the real run the subgradient leaf gets
+    (x0 - prox)/gamma and the value leaf the value at the proximal point, so that the recorded point evaluates to
+    the proximal point.  Every theorem above quantifies over all programs, proximal steps included, for worlds
+    given a proximal operator ([hp = true] and [prox_spec ... res]); with [hp = false], [prox_ok] says that the
+    program takes no proximal step.  For a convex function the specification [prox_spec] is met by its proximal
+    operator in the usual sense (minimiser of gamma F + 1/2 |. - x0|^2): this is C08's optimality theorem. *)
+From PV Require Spec.StepsSpec.
+From PV Require Import Proofs.C09Prox.
+
+Theorem C09_proximal_operator_meets_specification :
+  forall (E : ips) (F : @fn E) (res : R -> E -> E),
+    StepsSpec.convex_fn F ->
+    (forall gamma x0, 0 < gamma -> StepsSpec.is_prox F gamma x0 (res gamma x0)) ->
+    prox_spec (genuine_sub F) (val F) true res.
+Proof. exact (@is_prox_spec). Qed.
+Print Assumptions C09_proximal_operator_meets_specification.
+
+(** Non-vacuity: two proximal-point steps (gamma = 1/2, then 1) on f(x) = x^2, prox_{gamma f}(x0) = x0/(1 + 2 gamma):
+    the program is well formed, the world has the proximal operator, two samples are recorded, the second
+    recorded point is valued x0/6, and the two convexity constraints generated from the samples hold. *)
+Example C09_proximal_point_example :
+  forall vs : (nat -> R1) * (nat -> R),
+  mwf prox_point_program minit = true /\ prox_ok sq_world prox_point_program = true /\
+  Forall op_nodup prox_point_program /\
+  List.length (m_samples (mrun prox_point_program minit)) = 2%nat /\
+  List.length (g_cons (run_plan plan_ConvexFunction (fstate_of (fun _ => 0%Q) (mrun prox_point_program minit) 0))) = 2%nat /\
+  (forall x g fx, nth_error (m_samples (mrun prox_point_program minit)) 1 = Some (0%nat, (x, g, fx)) ->
+     evalP (fst (wrun sq_world prox_point_program minit vs)) x = fst vs 0%nat / 6) /\
+  all_satisfied (fst (wrun sq_world prox_point_program minit vs)) (snd (wrun sq_world prox_point_program minit vs))
+    (run_plan plan_ConvexFunction (fstate_of (fun _ => 0%Q) (mrun prox_point_program minit) 0)).
+Proof. exact proximal_point_example. Qed.
